@@ -408,3 +408,29 @@ package table
 //@   at-call r.getDefaultPolicy( requires result == ROUTE_TYPE_NONE
 //@   at-return requires before == nil ==> ret0 == nil
 //@   at-return requires before != nil && !old(before.IsWithdraw) ==> (result == ROUTE_TYPE_ACCEPT ==> ret0 == after) && (result != ROUTE_TYPE_ACCEPT ==> ret0 == nil)
+
+// =============================================================================================
+// C17 — VRF import: a VPN route is visible in a VRF iff one of its transitive route targets is imported
+// =============================================================================================
+//@ props C17
+//@ func (*Path).GetExtCommunities
+//@   pure
+//@   spec-only
+// from C17 / RFC 7153: transitive types have the 0x40 bit clear
+//@ func isTransitiveType
+//@   requires ec != nil
+//@   pure
+//@   modifies nothing
+//@   ensures result == (ec.GetTypes() < bgp.EC_TYPE_NON_TRANSITIVE_TWO_OCTET_AS_SPECIFIC)
+//@ func CanImportToVrf
+//@   requires v != nil && path != nil
+//@   requires forall k int :: 0 <= k && k < len(path.GetExtCommunities()) ==> path.GetExtCommunities()[k] != nil
+//@   claims at-return step post
+//@   at-return requires ret0 ==> isTransitiveType(x) && err == nil && found
+//@   loop 0 step !(isTransitiveType(x) && err == nil && found)
+//@ func (*RouteTargetMembershipHandler).HasDefaultRouteTarget
+//@   pure
+//@   spec-only
+//@ func (*RouteTargetMembershipHandler).HasRouteTarget
+//@   pure
+//@   spec-only
